@@ -99,6 +99,7 @@ type ContractSet struct {
 	Preds map[string]*Pred
 	Files []string
 	NAssume int
+	TypeInvs map[string][]*Clause // struct type name -> invariants over `self` (pointer to the struct)
 }
 
 var reHead = regexp.MustCompile(`^(requires|ensures|invariant|assume)(\[[A-Za-z0-9_,\- ]*\])?\s+(.*)$`)
@@ -119,7 +120,7 @@ func parseTags(s string) []string {
 }
 
 func ParseContracts(files ...string) (*ContractSet, error) {
-	cs := &ContractSet{ByKey: map[string]*Contract{}, Preds: map[string]*Pred{}}
+	cs := &ContractSet{ByKey: map[string]*Contract{}, Preds: map[string]*Pred{}, TypeInvs: map[string][]*Clause{}}
 	for _, f := range files {
 		data, err := os.ReadFile(f)
 		if err != nil {
@@ -174,6 +175,19 @@ func (cs *ContractSet) parseFile(fname, src string) error {
 			cur = &Contract{Key: key, Extern: word == "extern", Iface: word == "iface", Loops: map[int]*LoopSpec{}, Line: where}
 			cs.ByKey[key] = cur
 			pendingKF = nil
+			continue
+		case "typeinv":
+			// typeinv <Type>: <expr over self>
+			i := strings.Index(rest, ":")
+			if i < 0 {
+				return fail("typeinv <Type>: <expr>")
+			}
+			tn := strings.TrimSpace(rest[:i])
+			e, err := parser.ParseExpr(strings.TrimSpace(rest[i+1:]))
+			if err != nil {
+				return fail("typeinv: %v", err)
+			}
+			cs.TypeInvs[tn] = append(cs.TypeInvs[tn], &Clause{Text: strings.TrimSpace(rest[i+1:]), Expr: e, Line: where})
 			continue
 		case "pred", "ufunc":
 			p, err := parsePred(rest, word == "ufunc")
